@@ -41,6 +41,11 @@ def apply_edits(dst: str, edits: list) -> None:
     for rel, old, new in edits:
         p = os.path.join(dst, rel)
         s = open(p, encoding="utf-8").read()
+        if old is None:  # the file is empty on the unchanged tree: the edit is its new content
+            if s.strip():
+                raise RuntimeError(f"{rel}: expected an empty file")
+            open(p, "w", encoding="utf-8").write(new)
+            continue
         if s.count(old) != 1:
             raise RuntimeError(f"{rel}: expected exactly one occurrence of the text to replace, "
                                f"found {s.count(old)}")
